@@ -4,6 +4,7 @@ import OmplModel.Generated.RwSets
 import OmplModel.Proofs.SpaceInterpWeights
 import OmplModel.Proofs.SpaceInterpAlias
 import OmplModel.Proofs.SpaceInterpFix61
+import OmplModel.Proofs.SpaceInterpTree
 /-!
 C07 — property theorems for `StateSpace::interpolate` (model: `Model/SpaceInterp.lean`).
 
@@ -697,6 +698,67 @@ example : discInterp (-2000000000) 2000000000 (1 / 2 : ℝ) = 0 := by
 example : min (-2000000000) 2000000000 ≤ discInterp (-2000000000) 2000000000 (1 / 4 : ℝ) ∧
     discInterp (-2000000000) 2000000000 (1 / 4 : ℝ) ≤ max (-2000000000) 2000000000 :=
   disc_interp_between _ _ _ (by norm_num) (by norm_num)
+
+/-! ## 11. the tree with the F61 and F159 repairs (`interpolateTree = postMobius ∘ interpolateFix61`)
+
+`postMobius` (notes/C07-fix-F159.diff) negates the Mobius v coordinate after the cylinder branch when
+`π < |to.u - new u|` — a situation only IEEE rounding can produce. -/
+
+/-- [EX] Mobius cylinder branch (`|Δu| ≤ π`): the new u stays within π of `to.u`, so the mirror test
+`π < |to.u - u|` of `postMobius` is false over the reals -/
+theorem mobius_post_identity (u1 u2 t : ℝ) (hu1 : so2InB u1 = true) (hu2 : so2InB u2 = true)
+    (hcyl : |u2 - u1| ≤ π) (ht0 : 0 ≤ t) (ht1 : t ≤ 1) :
+    |u2 - so2InterpFix u1 u2 t| ≤ π ∧ ¬ π < |u2 - so2InterpFix u1 u2 t| := by
+  rw [so2InB_iff] at hu1 hu2
+  have h := mobius_post_fix hu1.1 hu1.2 hu2.1 hu2.2 hcyl ht0 ht1
+  exact ⟨h, not_lt.mpr h⟩
+
+example : |(1 : ℝ) - so2InterpFix 0 1 (1 / 3)| ≤ π ∧ ¬ π < |(1 : ℝ) - so2InterpFix 0 1 (1 / 3)| :=
+  mobius_post_identity _ _ _ zero_inB one_inB (by rw [sub_zero, abs_one]; linarith [pi_gt_three])
+    (by norm_num) (by norm_num)
+
+/-- [EX] EVERY space (arbitrarily nested): over ℝ the tree with both repairs equals `interpolate` on
+well-typed in-bounds states.  Consequence: every [EX] theorem of this file about `interpolate` transfers
+verbatim to `interpolateTree` (rewrite with this equation); the F61 and F159 repairs only change what
+IEEE rounding does at the seam. -/
+theorem interp_tree_eq (sp : Space ℝ) (a b : St ℝ) (t : ℝ)
+    (hwa : wellTyped sp a = true) (hwb : wellTyped sp b = true)
+    (hba : inBounds sp a = true) (hbb : inBounds sp b = true) (ht0 : 0 ≤ t) (ht1 : t ≤ 1) :
+    interpolateTree sp a b t = interpolate sp a b t :=
+  interpolateTree_eq sp a b t hwa hwb hba hbb ht0 ht1
+
+-- [Klein, SE(3), Mobius across its seam]; [Mobius across its seam, SE(3)]; a Mobius cylinder-branch pair
+example : interpolateTree allSp allA allB (1 / 3) = interpolate allSp allA allB (1 / 3) :=
+  interp_tree_eq _ _ _ _ allA_wt allB_wt allA_inB allB_inB (by norm_num) (by norm_num)
+example : interpolateTree mobSp mobA mobB (1 / 3) = interpolate mobSp mobA mobB (1 / 3) :=
+  interp_tree_eq _ _ _ _ mobA_wt mobB_wt mobA_inB mobB_inB (by norm_num) (by norm_num)
+example : interpolateTree (.mobius 1 2) (.ccons (.so2 0) (.ccons (.rv [1]) .cnil))
+      (.ccons (.so2 (1 : ℝ)) (.ccons (.rv [-1]) .cnil)) (1 / 3)
+    = interpolate (.mobius 1 2) (.ccons (.so2 0) (.ccons (.rv [1]) .cnil))
+      (.ccons (.so2 1) (.ccons (.rv [-1]) .cnil)) (1 / 3) :=
+  interp_tree_eq _ _ _ _ (by simp [wellTyped]) (by simp [wellTyped])
+    (by simp only [inBounds, rvInB, zero_inB, RealNum.dblEps_eq]; norm_num)
+    (by simp only [inBounds, rvInB, one_inB, RealNum.dblEps_eq]; norm_num) (by norm_num) (by norm_num)
+-- a transferred theorem: the repaired tree ends exactly on `to`
+example : interpolateTree mix mixA mixB 1 = mixB := by
+  rw [interp_tree_eq _ _ _ _ mixA_wt mixB_wt mixA_inB mixB_inB (by norm_num) (by norm_num)]
+  exact interp_one _ _ _ mix_ok mixA_wt mixB_wt mixB_inB
+
+/-- [AF] `postMobius` preserves the shape — any `Num` -/
+theorem postMobius_wellTyped {α : Type} [Num α] (sp : Space α) (a b r : St α)
+    (ha : wellTyped sp a = true) (hb : wellTyped sp b = true) (hr : wellTyped sp r = true) :
+    wellTyped sp (postMobius sp a b r) = true := SpaceInterp.postMobius_wellTyped sp a b r ha hb hr
+
+example : wellTyped mobSp (postMobius mobSp mobA mobB mobA) = true :=
+  postMobius_wellTyped _ _ _ _ mobA_wt mobB_wt mobA_wt
+
+/-- [AF] hence `interp_wellTyped` extends to the repaired tree — any `Num` -/
+theorem interp_tree_wellTyped {α : Type} [Num α] (sp : Space α) (a b : St α) (t : α)
+    (ha : wellTyped sp a = true) (hb : wellTyped sp b = true) :
+    wellTyped sp (interpolateTree sp a b t) = true := interpolateTree_wellTyped sp a b t ha hb
+
+example (t : ℝ) : wellTyped mobSp (interpolateTree mobSp mobA mobB t) = true :=
+  interp_tree_wellTyped _ _ _ _ mobA_wt mobB_wt
 
 /-! ## compound weights are irrelevant (zero-weight subspaces included)
 
